@@ -490,9 +490,28 @@ class OpsWorld(World):
                     return True
             return any(kk in ("c64", "f32") for kk in env.kinds)
 
+        def dirty_heap(op, x):
+            """Seam: the allocator hands out recycled memory.  Blocks of the sizes this call is about
+            to request are allocated, filled with a recognisable non-zero value and freed, so that an
+            output obtained from np.empty and not completely written does not happen to read as zero."""
+            try:
+                sizes = {int(np.prod(op.oshape)), int(np.prod(op.ishape))}
+            except Exception:
+                return
+            dirty_sizes(sizes)
+
+        def dirty_sizes(sizes):
+            junk = []
+            for n_ in sizes:
+                for dt_ in (np.float32, np.float64, np.complex64, np.complex128):
+                    for _ in range(2):
+                        junk.append(np.full(max(1, n_), 12345.678, dtype=dt_))
+            del junk
+
         def apply_op(step, j, x, judged_raise=False):
             ent = env.ops[j]
             op = ent["op"]
+            dirty_heap(op, x)
             try:
                 out = op(x)
             except Exception as e:
@@ -723,6 +742,7 @@ class OpsWorld(World):
                         for e in a_:
                             if isinstance(e, np.ndarray):
                                 own("arg", e)
+                dirty_sizes({int(a_.size) for a_ in args if isinstance(a_, np.ndarray)})
                 try:
                     out = fn(*args, **kwargs)
                 except Exception as e:
@@ -740,6 +760,8 @@ class OpsWorld(World):
                 if name not in ("monte_carlo_sure", "axpy", "xpay", "copyto"):
                     # call again with the very same arguments: equal results
                     try:
+                        if isinstance(out, np.ndarray):
+                            dirty_sizes({int(out.size)})
                         out2 = fn(*args, **kwargs)
                     except Exception:
                         out2 = None
